@@ -271,11 +271,16 @@ CHECKS["C03"] = dict(
 )
 CHECKS["C20"] = dict(
     engine="spec/survey", category="model_checking",
-    technique="TLA+ state machine LinkedSurveys.tla (LinkFrom / Edit / Copy / Reopen over two partner entities, their live and "
-              "stored metadata, partner pointers and all copies) model-checked by TLC per linked class pair (10 configurations of 9 "
-              "class families) with 14 invariants/action properties; the exported state graph is replayed edge-complete on real "
-              "survey objects in .geoh5 files, comparing live metadata, raw h5py metadata, partner getters, geometry and loop "
-              "references of every entity after every action",
+    technique="TLA+ state machine survey/LinkedSurveys.tla (LinkFrom / Edit / Copy / CopyGroup / Reopen over two partner entities - "
+              "optionally a second receiver and transmitter object for take-overs -, their live and stored metadata, partner pointers "
+              "and all copies) model-checked by TLC per linked class pair (10 pair configurations of 9 class families, one large-loop "
+              "pair with a transmitter loop no receiver refers to; extra configurations for re-linking, for a property group that holds "
+              "the linking data and for copying the group that holds the pair) with 15 invariants / action properties; the exported "
+              "state graph is replayed edge-complete on real survey objects in .geoh5 files, comparing live metadata, raw h5py "
+              "metadata, partner getters, geometry and per-station loop references of every entity after every newly covered action "
+              "(already verified prefixes are re-run without calling partner getters so that edits meet cold caches), plus the "
+              "file-layout oracle of harness/h5snap.py after copies and on the closed files where property groups are involved; ten "
+              "named as-built deviations with negative-control configurations",
     text="Exhaustive over all histories within the cfg bounds (quick: <= 4 actions, <= 2 copies, <= 2 edits, 1 re-open; thorough adds "
          "all 15 setters on every pair with rejected values, boolean masks, two masks, cross-workspace extent copies, DC/MT depth 5); "
          "every exported transition replayed against the implementation.",
